@@ -165,7 +165,8 @@ def cylinder(r=1, h=1, center=(0,0,0), axis=(0,0,1), xaxis=(1,0,0)):
     :return: The cylinder shell
     :rtype: Surface
     """
-    return extrude(curve_factory.circle(r, center, axis, xaxis=xaxis), h*np.array(axis))
+    axis = np.array(axis, dtype=float)
+    return extrude(curve_factory.circle(r, center, axis, xaxis=xaxis), h*axis/np.linalg.norm(axis))
 
 
 def torus(minor_r=1, major_r=3, center=(0,0,0), normal=(0,0,1), xaxis=(1,0,0)):
